@@ -40,4 +40,34 @@ theorem chunks_flatMap : ∀ (xs : List Nat), (∀ x ∈ xs, x < 2 ^ 64) →
     have : (256 : Nat) ^ 8 = 2 ^ 64 := by decide
     rw [this, Nat.mod_eq_of_lt hx]
 
+theorem index_codec (v : Nat) (h : v < 2 ^ 64) : bytesToItemIndex (some (itemIndexToBytes v)) = .ok v := by
+  unfold bytesToItemIndex itemIndexToBytes
+  have hl := length_leBytes 8 v
+  simp only [hl, Nat.lt_irrefl, if_false]
+  rw [List.take_of_length_le (by omega), leVal_leBytes]
+  have : (256 : Nat) ^ 8 = 2 ^ 64 := by decide
+  rw [this, Nat.mod_eq_of_lt h]
+
+theorem index_array_codec (xs : List Nat) (hlen : xs.length < 2 ^ 32) (hx : ∀ x ∈ xs, x < 2 ^ 64) :
+    bytesToItemIndexArray (itemIndexArrayToBytes xs) = .ok xs := by
+  unfold bytesToItemIndexArray itemIndexArrayToBytes
+  have h4 := length_leBytes 4 xs.length
+  have hlenb : (leBytes 4 xs.length ++ xs.flatMap (leBytes 8)).length = 4 + xs.length * 8 := by
+    rw [List.length_append, h4, length_flatMap_leBytes]
+  have hsize : leVal ((leBytes 4 xs.length ++ xs.flatMap (leBytes 8)).take 4) = xs.length := by
+    rw [take_leBytes_append, leVal_leBytes]
+    have : (256 : Nat) ^ 4 = 2 ^ 32 := by decide
+    rw [this, Nat.mod_eq_of_lt hlen]
+  have hdrop : (leBytes 4 xs.length ++ xs.flatMap (leBytes 8)).drop 4 = xs.flatMap (leBytes 8) :=
+    drop_leBytes_append 4 _ _
+  rw [if_neg (by omega), if_neg (by omega)]
+  dsimp only
+  rw [hsize, hdrop]
+  cases xs with
+  | nil => rfl
+  | cons x t =>
+    rw [if_neg (by simp), if_neg (by rw [length_flatMap_leBytes]; omega)]
+    rw [chunks_flatMap _ hx]
+
+
 end OtelVerif.C01.Codec
